@@ -165,6 +165,24 @@ def execute(case):
                             else:
                                 add_teardown_callback(mk(i, cb), False)
                         log(ev="reg", cb=i, **{"pass": cb["pass"]})
+                    if case.get("seed", 0) % 4 == 3 and "outer_tg" in state:
+                        # another task has a lookup in flight on an asynchronous factory of this context when the block is left (it stays
+                        # in flight until the teardown is over): that must not keep a single callback from running
+                        fgate = Event()
+                        state["fgate"] = fgate
+
+                        async def slow_factory():
+                            await fgate.wait()
+                            return B()
+
+                        async def helper():
+                            try:
+                                await ctx.get_resource(B, "inflight")
+                            except BaseException:  # noqa: BLE001
+                                pass
+                        ctx.add_resource_factory(slow_factory, "inflight", types=[B])
+                        state["outer_tg"].start_soon(helper)
+                        await anyio.sleep(0)
                     if sc.get("bogus"):
                         # a rejected registration: its callback must never run
                         from asphalt.core import ResourceConflict
@@ -214,9 +232,12 @@ def execute(case):
             except BaseException:  # noqa: BLE001
                 pass
             finally:
+                if "fgate" in state:
+                    state["fgate"].set()
                 done.set()
 
         async with create_task_group() as tg:
+            state["outer_tg"] = tg
             tg.start_soon(worker)
             for _ in range(60):
                 await vclock.quiescent()
